@@ -1,6 +1,360 @@
+/-
+  C09 — merge is the pointwise sum over the union / intersection of IDs.
+
+  Model of `Table.merge` (biom/table.py) as the code is now:
+  * path selection: the fast path is taken iff (no operand carries metadata on either axis, or both
+    metadata functions are `None`) and both axes are `union`; a list/tuple of operands that cannot
+    take the fast path is folded pairwise through `merge` itself (so every step selects its path again);
+  * `generalMerge`: `_union_id_order` / `_intersect_id_order`, `TableException` when an axis comes
+    out empty, a `None` metadata function replaced by "returns None", per-ID metadata
+    `f(self_md or None, other_md or None)`, per-observation vector assembly with its three branches,
+    the constructor's metadata normalisation (`castMd`);
+  * `fastMerge ts`: global *sorted* ID spaces, per-operand re-indexing of the stored (non-zero)
+    entries into COO triples, duplicates summed on conversion; the result has no metadata.
+
+  `holds` is the declarative predicate, stated by ID on the observed outcome only.
+-/
 import BiomModel.Codec
 open Lean
+
 namespace Biom.C09
-/-- stub: not built yet -/
-def handle (_req : Json) : Codec.R Json := .error "C09: model not built yet"
+
+inductive Mode where
+  | union | inter
+  deriving Repr, DecidableEq, BEq, Inhabited
+
+/-- a metadata-merge function on canonical entries (`none` = Python `None`) -/
+abbrev MdFun := Option Md → Option Md → Option Md
+/-- the argument as passed: `none` = `None` was passed instead of a function -/
+abbrev MdF := Option MdFun
+
+/-- `None` as a metadata function means "do not carry metadata" -/
+def applyF : MdF → MdFun
+  | some g => g
+  | none => fun _ _ => none
+
+/-- `biom.util.prefer_self` -/
+def preferSelf : MdFun := fun x y => match x with | some m => some m | none => y
+
+/-- the canonical view of one metadata entry: `None` and the empty mapping are the same thing -/
+def canon (m : Option Md) : Md := m.getD []
+
+variable {α : Type}
+
+/-! ### ID orders -/
+
+/-- the loop of `_union_id_order`: an ID gets the next index the first time it is seen -/
+def unionAux (seen : List Id) : List Id → List Id
+  | [] => []
+  | x :: xs => if x ∈ seen then unionAux seen xs else x :: unionAux (x :: seen) xs
+
+/-- `_union_id_order(a, b)`, as the list of IDs in index order -/
+def unionOrder (a b : List Id) : List Id := unionAux [] (a ++ b)
+
+/-- `_intersect_id_order(a, b)`: the receiver's order restricted to the IDs of `b` -/
+def interOrder (a b : List Id) : List Id := a.filter (fun x => decide (x ∈ b))
+
+def newOrder : Mode → List Id → List Id → List Id
+  | .union => unionOrder
+  | .inter => interOrder
+
+/-! ### general path -/
+
+/-- what the constructor makes of a per-ID metadata list: one `None`/empty mapping per ID is
+"no metadata"; otherwise every `None` becomes an empty mapping -/
+def castMd (l : List (Option Md)) : Option (List Md) :=
+  if l.all (fun m => (canon m).isEmpty) then none else some (l.map canon)
+
+/-- `vec[idx[s]]` if `s` is an ID of the operand, else 0 -/
+def valOr0 [Zero α] (ids : List Id) (vec : List α) (s : Id) : α := (lookupBy ids vec s).getD 0
+
+/-- the new vector of observation `o` over the new sample order (three branches of the code) -/
+def mergeRow [Add α] [Zero α] (a b : Table α) (ns : List Id) (o : Id) : List α :=
+  match a.row? o, b.row? o with
+  | some sv, none => ns.map (fun s => valOr0 a.samp sv s)
+  | none, some ov => ns.map (fun s => valOr0 b.samp ov s)
+  | some sv, some ov => ns.map (fun s => valOr0 a.samp sv s + valOr0 b.samp ov s)
+  | none, none => ns.map (fun _ => 0)
+
+/-- per-ID merged metadata, before the constructor sees it -/
+def mdList (f : MdFun) (a b : Table α) (ax : Axis) (ids : List Id) : List (Option Md) :=
+  ids.map (fun id => f (a.mdOf? ax id) (b.mdOf? ax id))
+
+def generalMerge [Add α] [Zero α] (fs fo : MdF) (ms mo : Mode) (a b : Table α) : Except Err (Table α) :=
+  let ns := newOrder ms a.samp b.samp
+  let no := newOrder mo a.obs b.obs
+  if ns.isEmpty then .error .tableException
+  else if no.isEmpty then .error .tableException
+  else .ok { obs := no, samp := ns, rows := no.map (mergeRow a b ns),
+             omd := castMd (mdList (applyF fo) a b .obs no),
+             smd := castMd (mdList (applyF fs) a b .samp ns), ttype := none }
+
+/-! ### fast path -/
+
+/-- `sorted(set(...))` -/
+def sortIds (l : List Id) : List Id := l.mergeSort (fun x y => decide (x ≤ y))
+
+/-- the global ID space of an axis: every ID of every operand once, sorted -/
+def globalIds (ts : List (Table α)) (ax : Axis) : List Id :=
+  sortIds (unionAux [] (ts.flatMap (fun t => t.ids ax)))
+
+/-- stored entries of one row, re-indexed: (global row, global column, value) -/
+def rowTriples [Zero α] [DecidableEq α] (gs : List Id) (i : Nat) : List Id → List α → List (Nat × Nat × α)
+  | s :: ss, v :: vs =>
+    if v = 0 then rowTriples gs i ss vs else (i, gs.idxOf s, v) :: rowTriples gs i ss vs
+  | _, _ => []
+
+def gridTriples [Zero α] [DecidableEq α] (go gs : List Id) (samp : List Id) :
+    List Id → List (List α) → List (Nat × Nat × α)
+  | o :: os, r :: rs => rowTriples gs (go.idxOf o) samp r ++ gridTriples go gs samp os rs
+  | _, _ => []
+
+def triples [Zero α] [DecidableEq α] (go gs : List Id) (t : Table α) : List (Nat × Nat × α) :=
+  gridTriples go gs t.samp t.obs t.rows
+
+/-- COO → CSR: the value at (i, j) is the sum of all triples that name (i, j) -/
+def cellSum [Add α] [Zero α] (trs : List (Nat × Nat × α)) (i j : Nat) : α :=
+  sumL (trs.filterMap (fun t => if t.1 = i ∧ t.2.1 = j then some t.2.2 else none))
+
+def fastMerge [Add α] [Zero α] [DecidableEq α] (ts : List (Table α)) : Table α :=
+  let go := globalIds ts .obs
+  let gs := globalIds ts .samp
+  let trs := ts.flatMap (triples go gs)
+  { obs := go, samp := gs,
+    rows := (List.range go.length).map (fun i => (List.range gs.length).map (fun j => cellSum trs i j)),
+    omd := none, smd := none, ttype := none }
+
+/-! ### path selection -/
+
+inductive Others (α : Type) where
+  | single (b : Table α)
+  | many (ts : List (Table α))
+
+def Others.toList : Others α → List (Table α)
+  | .single b => [b]
+  | .many ts => ts
+
+def hasNoMd (t : Table α) : Bool := t.smd.isNone && t.omd.isNone
+
+def fastOk (fs fo : MdF) (ms mo : Mode) (ts : List (Table α)) : Bool :=
+  (ts.all hasNoMd || (fs.isNone && fo.isNone)) && (ms == .union && mo == .union)
+
+/-- `a.merge(b)` for a single table `b` -/
+def merge2 [Add α] [Zero α] [DecidableEq α] (fs fo : MdF) (ms mo : Mode) (a b : Table α) :
+    Except Err (Table α) :=
+  if fastOk fs fo ms mo [a, b] then .ok (fastMerge [a, b]) else generalMerge fs fo ms mo a b
+
+/-- the pairwise fold of the list form -/
+def foldMerge [Add α] [Zero α] [DecidableEq α] (fs fo : MdF) (ms mo : Mode) :
+    Table α → List (Table α) → Except Err (Table α)
+  | acc, [] => .ok acc
+  | acc, t :: ts =>
+    match merge2 fs fo ms mo acc t with
+    | .ok r => foldMerge fs fo ms mo r ts
+    | .error e => .error e
+
+structure Input (α : Type) where
+  a : Table α
+  others : Others α
+  ms : Mode
+  mo : Mode
+  fs : MdF
+  fo : MdF
+
+def Input.operands (inp : Input α) : List (Table α) := inp.a :: inp.others.toList
+
+def merge [Add α] [Zero α] [DecidableEq α] (inp : Input α) : Except Err (Table α) :=
+  match inp.others with
+  | .single b => merge2 inp.fs inp.fo inp.ms inp.mo inp.a b
+  | .many ts =>
+    if fastOk inp.fs inp.fo inp.ms inp.mo (inp.a :: ts) then .ok (fastMerge (inp.a :: ts))
+    else foldMerge inp.fs inp.fo inp.ms inp.mo inp.a ts
+
+/-- which implementation ran at each step (observed in the real code by wrapping `_fast_merge`) -/
+def foldTrace [Add α] [Zero α] [DecidableEq α] (fs fo : MdF) (ms mo : Mode) :
+    Table α → List (Table α) → List String
+  | _, [] => []
+  | acc, t :: ts =>
+    (if fastOk fs fo ms mo [acc, t] then "fast" else "general") ::
+      (match merge2 fs fo ms mo acc t with
+       | .ok r => foldTrace fs fo ms mo r ts
+       | .error _ => [])
+
+def trace [Add α] [Zero α] [DecidableEq α] (inp : Input α) : List String :=
+  match inp.others with
+  | .single b => [if fastOk inp.fs inp.fo inp.ms inp.mo [inp.a, b] then "fast" else "general"]
+  | .many ts =>
+    if fastOk inp.fs inp.fo inp.ms inp.mo (inp.a :: ts) then ["fast"]
+    else foldTrace inp.fs inp.fo inp.ms inp.mo inp.a ts
+
+/-! ### The property, stated on observations only (by ID) -/
+
+def hasId (t : Table α) (ax : Axis) (id : Id) : Bool := decide (id ∈ t.ids ax)
+
+/-- is `id` in the union / intersection of the operands' IDs on the axis -/
+def expMem (m : Mode) (ax : Axis) (ts : List (Table α)) (id : Id) : Bool :=
+  match m with
+  | .union => ts.any (fun t => hasId t ax id)
+  | .inter => ts.all (fun t => hasId t ax id)
+
+/-- the expected ID set is empty (every expected ID is an ID of some operand) -/
+def expEmpty (m : Mode) (ax : Axis) (ts : List (Table α)) : Bool :=
+  (ts.flatMap (fun t => t.ids ax)).all (fun id => !(expMem m ax ts id))
+
+/-- the result's IDs on an axis are exactly the union / intersection, each once -/
+def idsOk (m : Mode) (ax : Axis) (ts : List (Table α)) (r : List Id) : Bool :=
+  decide r.Nodup && r.all (expMem m ax ts) &&
+  (ts.flatMap (fun t => t.ids ax)).all (fun id => !(expMem m ax ts id) || decide (id ∈ r))
+
+def cellOr0 [Zero α] (t : Table α) (o s : Id) : α := (t.cell? o s).getD 0
+
+/-- every cell of the result is the sum of the operands' values for that pair (absent = 0) -/
+def cellsOk [Add α] [Zero α] [DecidableEq α] (ts : List (Table α)) (r : Table α) : Bool :=
+  r.obs.all (fun o => r.samp.all (fun s =>
+    decide (r.cell? o s = some (sumL (ts.map (fun t => cellOr0 t o s))))))
+
+def total [Add α] [Zero α] (t : Table α) : α := sumL (t.rows.map sumL)
+
+/-- per-axis view used to say what the metadata of a k-tuple merge must be: the pairwise rule
+iterated left to right, each intermediate table being built by the constructor -/
+structure AxV where
+  ids : List Id
+  md : Id → Option Md
+
+def AxV.ofTable (t : Table α) (ax : Axis) : AxV := { ids := t.ids ax, md := t.mdOf? ax }
+
+def AxV.step (f : MdFun) (m : Mode) (ax : Axis) (v : AxV) (t : Table α) : AxV :=
+  let ids := newOrder m v.ids (t.ids ax)
+  let g := fun id => f (v.md id) (t.mdOf? ax id)
+  { ids := ids,
+    md := fun id =>
+      if ids.all (fun i => (canon (g i)).isEmpty) then none
+      else if id ∈ ids then some (canon (g id)) else none }
+
+def specMd (f : MdF) (m : Mode) (ax : Axis) (a : Table α) (others : List (Table α)) : AxV :=
+  others.foldl (AxV.step (applyF f) m ax) (AxV.ofTable a ax)
+
+/-- metadata of each result ID = canon (f (self entry) (other entry)); for a single other table
+`specMd` is exactly that (theorem `specMd_pair`) -/
+def mdOk (f : MdF) (m : Mode) (ax : Axis) (a : Table α) (others : List (Table α)) (r : Table α) : Bool :=
+  (r.ids ax).all (fun id => canon (r.mdOf? ax id) == canon ((specMd f m ax a others).md id))
+
+open Codec in
+def verdict [Add α] [Zero α] [DecidableEq α] (inp : Input α) (out : Except Err (Table α)) : Verdict :=
+  let ts := inp.operands
+  let emptyInter := (inp.ms == .inter && expEmpty .inter .samp ts) || (inp.mo == .inter && expEmpty .inter .obs ts)
+  let emptyUnion := (inp.ms == .union && expEmpty .union .samp ts) || (inp.mo == .union && expEmpty .union .obs ts)
+  match out with
+  | .error e =>
+    -- an empty intersection must raise TableException; nothing else may raise
+    chk "outcome:unexpected-error" (e == .tableException && (emptyInter || emptyUnion))
+  | .ok r =>
+    allV [
+      chk "outcome:empty-intersection-not-refused" (!emptyInter),
+      chk "shape" r.wfb,
+      chk "ids:sample" (idsOk inp.ms .samp ts r.samp),
+      chk "ids:observation" (idsOk inp.mo .obs ts r.obs),
+      chk "cell" (cellsOk ts r),
+      chk "total" (!(inp.ms == .union && inp.mo == .union) || decide (total r = sumL (ts.map total))),
+      chk "md:sample" (mdOk inp.fs inp.ms .samp inp.a inp.others.toList r),
+      chk "md:observation" (mdOk inp.fo inp.mo .obs inp.a inp.others.toList r)]
+
+def holds [Add α] [Zero α] [DecidableEq α] (inp : Input α) (out : Except Err (Table α)) : Bool :=
+  (verdict inp out).isNone
+
+/-! ### named family of metadata functions (Lean twins of the harness lambdas) -/
+
+def mdKeys (m : Md) : List String := m.map (·.1)
+
+/-- `{**y, **x}` on canonical entries, kept sorted by key -/
+def mdUnion (x y : Md) : Md :=
+  (x ++ y.filter (fun kv => !(mdKeys x).contains kv.1)).mergeSort (fun p q => decide (p.1 ≤ q.1))
+
+def tagOf (x y : Option Md) : String :=
+  match x, y with
+  | some _, some _ => "\"both\""
+  | some _, none => "\"self\""
+  | none, some _ => "\"other\""
+  | none, none => "\"neither\""
+
+def namedF (name : String) : Codec.R MdFun :=
+  match name with
+  | "prefer_self" => pure preferSelf
+  | "prefer_other" => pure (fun x y => match y with | some m => some m | none => x)
+  | "union_self" => pure (fun x y => match x, y with
+      | none, none => none
+      | _, _ => some (mdUnion (canon x) (canon y)))
+  | "union_always" => pure (fun x y => some (mdUnion (canon x) (canon y)))
+  | "both_only" => pure (fun x y => match x, y with | some m, some _ => some m | _, _ => none)
+  | "drop" => pure (fun _ _ => none)
+  | "tag" => pure (fun x y => match x, y with
+      | none, none => none
+      | _, _ => some [("src", tagOf x y)])
+  | s => .error s!"unknown metadata function {s}"
+
+/-! ### JSON glue -/
+open Codec
+
+def asMode (j : Json) : R Mode := do
+  match (← asStr j) with
+  | "union" => pure .union
+  | "intersection" => pure .inter
+  | s => .error s!"bad mode {s}"
+
+def asMdF (j : Json) (k : String) : R MdF :=
+  match optFld j k with
+  | none => pure none
+  | some v => do pure (some (← namedF (← asStr v)))
+
+def asOutcome (j : Json) : R (Except Err (Table Rat)) :=
+  match optFld j "ok" with
+  | some t => do pure (.ok (← asTable t))
+  | none => do pure (.error (asErr (← strF j "error")))
+
+/-- by-ID comparison of two tables (order of IDs is not part of the property) -/
+def sameById (x y : Table Rat) : Bool :=
+  x.obs.length == y.obs.length && x.samp.length == y.samp.length &&
+  x.obs.all (fun o => y.obs.contains o) && x.samp.all (fun s => y.samp.contains s) &&
+  x.obs.all (fun o => x.samp.all (fun s => x.cell? o s == y.cell? o s)) &&
+  x.omd.isNone == y.omd.isNone && x.smd.isNone == y.smd.isNone &&
+  x.obs.all (fun o => x.mdOf? .obs o == y.mdOf? .obs o) &&
+  x.samp.all (fun s => x.mdOf? .samp s == y.mdOf? .samp s) &&
+  x.ttype == y.ttype
+
+def sameOutcome (x y : Except Err (Table Rat)) : Bool :=
+  match x, y with
+  | .ok a, .ok b => sameById a b
+  | .error e, .error f => e == f
+  | _, _ => false
+
+def sameOrder (x y : Except Err (Table Rat)) : Bool :=
+  match x, y with
+  | .ok a, .ok b => a.obs == b.obs && a.samp == b.samp
+  | _, _ => true
+
+/-- request: {"a": table, "others": [table…], "list": bool, "ms": …, "mo": …, "fs": name|null,
+    "fo": name|null, "outcome": {"ok": table} | {"error": name}, "trace": ["fast"|"general"…]} -/
+def handle (req : Json) : R Json := do
+  let a ← asTable (← fld req "a")
+  let others ← listF asTable req "others"
+  let isList ← boolF req "list"
+  let oth : Others Rat ←
+    if isList then pure (.many others)
+    else match others with
+      | [b] => pure (.single b)
+      | _ => .error "single form needs exactly one other table"
+  let inp : Input Rat := { a := a, others := oth, ms := (← asMode (← fld req "ms")),
+                           mo := (← asMode (← fld req "mo")), fs := (← asMdF req "fs"), fo := (← asMdF req "fo") }
+  let out ← asOutcome (← fld req "outcome")
+  let tr ← listF asStr req "trace"
+  let m := merge inp
+  let mtr := trace inp
+  let v := verdict inp out
+  pure (Json.mkObj (verdictToJson v ++ [
+    ("model_holds", .bool (holds inp m)),
+    ("agree", .bool (sameOutcome m out && mtr == tr)),
+    ("same_order", .bool (sameOrder m out)),
+    ("model", exceptToJson tableToJson m),
+    ("model_trace", strsToJson mtr)]))
+
 end Biom.C09
